@@ -1,6 +1,7 @@
 (* C06, reader against specification: the superblock when size of offsets = size of lengths = 8 (the class the
    refutations of ReaderSpecSuper.v leave).  For every file image the strict specification decoder accepts as a version
-   0, 2 or 3 superblock with both sizes 8, ReadSuperblock (Model/CodecSuper.v dec_superblock) returns an error or the same
+   0, 2 or 3 superblock with both sizes 8, the UNREPAIRED ReadSuperblock (Model/CodecSuper.v dec_superblock_gen false; the
+   repaired one is covered for every size by ReaderSpecSuperRepaired.v) returns an error or the same
    version, sizes, little-endian byte order, root group address, and - versions 2/3 - base address and superblock
    extension address, - version 0 - the cached B-tree / local heap addresses when the root entry's cache type is 1.
    Version 1 is an error for the reader.  Version 0: the reader reports base address 0 whatever the file says
@@ -113,7 +114,7 @@ Qed.
 Lemma superblock_v23_reader_spec (bs : bytes) (s : superblock_spec) (tg : list tag) (r : bytes) :
   spec_dec_superblock strict bs = Ok (s, tg, r) ->
   sbs_version s = 2 \/ sbs_version s = 3 -> sbs_O s = 8 -> sbs_L s = 8 ->
-  err_or (sb_agree s) (dec_superblock bs).
+  err_or (sb_agree s) (dec_superblock_gen false bs).
 Proof.
   intros H HV HO HL. pose proof (spec_sb_version _ _ _ _ H) as IV.
   unfold spec_dec_superblock in H. rewrite (at_pos_0 bs) in H.
@@ -139,7 +140,7 @@ Proof.
   change (12 + 8) with 20 in *. change (20 + 8) with 28 in *. change (28 + 8) with 36 in *. change (36 + 8) with 44 in *.
   change (44 + 4) with 48 in *.
   (* the reader *)
-  unfold dec_superblock. fold (sbuf bs).
+  unfold dec_superblock_gen. fold (sbuf bs).
   assert (MN : 48 <= N.min (blen bs) 128) by blia.
   rewrite (ltb_false_of_le (N.min (blen bs) 128) 48) by exact MN.
   rewrite slice_sbuf by blia. rewrite SG. cbn [obind].
@@ -147,7 +148,7 @@ Proof.
   rewrite index_sbuf by blia. rewrite I8. cbn [obind].
   destruct VV as [-> | ->]; cbn [N.eqb Pos.eqb orb negb andb];
     rewrite !index_sbuf by blia; rewrite I9; cbn [obind]; rewrite I10; cbn [obind];
-    change (valid_size 8) with true; cbv beta iota; cbn [obind]; cbv beta iota;
+    cbn [andb]; cbv beta iota; change (valid_size 8) with true; cbv beta iota; cbn [obind]; cbv beta iota;
     change (8 =? 0) with false; cbv beta iota; change (valid_size 8) with true; cbn [andb negb]; cbv beta iota;
     change (N.testbit 8 0) with false;
     rewrite (read_value_8 (sbuf bs) 12 base) by (try apply blen_sbuf; try blia; rewrite rd_le_sbuf by blia; exact RB);
@@ -232,14 +233,14 @@ Lemma superblock_v0_reader_facts (bs : bytes) (root : N) :
   96 <= blen bs -> slice bs 0 8 = Ok hdf5_sig -> index bs 8 = Ok 0 -> index bs 13 = Ok 8 -> index bs 14 = Ok 8 ->
   rd_le bs 64 8 = Ok root ->
   exists bt hp, rd_le bs 80 8 = Ok bt /\ rd_le bs 88 8 = Ok hp /\
-    dec_superblock bs =
+    dec_superblock_gen false bs =
       Ok {| spp_version := 0; spp_offsize := 8; spp_lensize := 8; spp_bigendian := false; spp_base := 0; spp_root := root;
             spp_superext := 0; spp_driverinfo := 0; spp_rootbtree := bt; spp_rootheap := hp |}.
 Proof.
   intros B20 SG I8 I13 I14 RO.
   destruct (rd_le_ok bs 80 8) as (bt' & RBT); [blia|]. destruct (rd_le_ok bs 88 8) as (hp' & RHP); [blia|].
   exists bt', hp'. split; [exact RBT|]. split; [exact RHP|].
-  unfold dec_superblock. fold (sbuf bs).
+  unfold dec_superblock_gen. fold (sbuf bs).
   assert (MN : 96 <= N.min (blen bs) 128) by blia.
   rewrite (ltb_false_of_le (N.min (blen bs) 128) 48) by blia.
   rewrite (ltb_false_of_le (N.min (blen bs) 128) 96) by blia.
@@ -261,7 +262,7 @@ Qed.
 Lemma superblock_v0_reader_spec (bs : bytes) (s : superblock_spec) (tg : list tag) (r : bytes) :
   spec_dec_superblock strict bs = Ok (s, tg, r) ->
   sbs_version s = 0 -> sbs_O s = 8 -> sbs_L s = 8 ->
-  err_or (sb_agree s) (dec_superblock bs).
+  err_or (sb_agree s) (dec_superblock_gen false bs).
 Proof.
   intros H HV HO HL.
   destruct (superblock_v0_spec_facts bs s tg r H HV HO HL) as (B & SG & I8 & I13 & I14 & RO & e & EE & EC).
